@@ -6,6 +6,9 @@ ALL = ["C%02d" % i for i in range(1, 21)]
 
 # id -> (level, technique, level text, level note, design ref)
 CHECKS = {
+ "C02": ("exploration", "delay-bounded exhaustive schedule exploration of a real Operator under a cooperative scheduler (testing/synctest bubble), scripts enumerated, cut oracle evaluated at every OperatorCheckpointComplete",
+         "two (thorough: also three) sender threads playing enumerated scripts of events / watermarks / barriers for one or two consecutive checkpoints against a real Operator with a slow handler; every schedule within 1 delay for all scripts and 2 delays for a focused script set (thorough: 2 and 3): the events applied at the report of checkpoint N are exactly the pre-barrier events, no timer fires on post-barrier watermarks only, the reported DKV checkpoint restores to exactly the cut, no deadlock",
+         "scheduling points at synchronisation operations; delay bound; large memtable (no background flush in this harness)", "DESIGN.md §5 C02"),
  "C03": ("exploration", "bounded exhaustive mutation-sequence enumeration on the real KeyedStateStore over a real dkv.DB (background work held or quiescent as an enumerated action) vs a shadow map",
          "every sequence of put/delete mutations up to depth 4-5 over prefix-related subject keys, namespaces and entry keys incl. empty ones, tiny DKV thresholds; GetState of every subject key after every mutation equals the shadow map[subject][namespace][entry]; no foreign, duplicated or resurrected entries",
          "store tier only so far (the operator path with batching is added with the scheduler-driven operator harness); namespaces < 256 bytes", "DESIGN.md §5 C03"),
